@@ -502,7 +502,7 @@ fn keypackage_and_welcome(prop: &str, i: u64, rng: &mut Rng, out: &mut Outcome, 
         }
         // another package of the same user (for the foreign `i` tag)
         let other_i = with_mdk!(w.clients[b].mdk, x => x.create_key_package_for_event(&keys.public_key(), vec![relay(0)])).ok().and_then(|(_, t, _)| t.iter().find(|t| t.kind() == TagKind::i()).and_then(|t| t.content().map(|s| s.to_string())));
-        let k = rng.below(16);
+        let k = rng.below(22);
         let mut t2: Vec<Tag> = tags.clone();
         let mut c2 = content.clone();
         let mut kind = Kind::MlsKeyPackage;
@@ -582,9 +582,41 @@ fn keypackage_and_welcome(prop: &str, i: u64, rng: &mut Rng, out: &mut Outcome, 
                 replace(&mut t2, &|t| t.kind() == TagKind::MlsCiphersuite, None);
                 "ciphersuite-missing"
             }
-            _ => {
+            15 => {
                 replace(&mut t2, &|t| t.kind() == TagKind::Relays, Some(Tag::custom(TagKind::Relays, ["not-a-url"])));
                 "relays-invalid"
+            }
+            // near misses of the reference tag: the real reference cut short, prolonged, or off by one
+            // hex digit / one bit
+            16 | 17 | 18 | 19 => {
+                let real = t2.iter().find(|t| t.kind() == TagKind::i()).and_then(|t| t.content().map(|s| s.to_string())).unwrap_or_default();
+                let (v, l) = match k {
+                    16 => (real[..2 * [1usize, 8, 16, 31][rng.below(4)].min(real.len() / 2)].to_string(), "i-tag-proper-prefix-of-the-reference"),
+                    17 => (format!("{real}{}", hex::encode(&rng.bytes::<16>()[..1 + rng.below(16)])), "i-tag-reference-with-bytes-appended"),
+                    18 => {
+                        let mut raw = hex::decode(&real).unwrap_or_default();
+                        if !raw.is_empty() {
+                            let p = rng.below(raw.len());
+                            raw[p] ^= 1 << rng.below(8);
+                        }
+                        (hex::encode(raw), "i-tag-one-bit-flipped")
+                    }
+                    _ => (String::new(), "i-tag-empty"),
+                };
+                replace(&mut t2, &|t| t.kind() == TagKind::i(), Some(Tag::custom(TagKind::i(), [v])));
+                l
+            }
+            20 => {
+                let real = t2.iter().find(|t| t.kind() == TagKind::MlsCiphersuite).and_then(|t| t.content().map(|s| s.to_string())).unwrap_or_default();
+                let v = if rng.chance(50) { format!("{real}0") } else { real[..real.len().saturating_sub(1)].to_string() };
+                replace(&mut t2, &|t| t.kind() == TagKind::MlsCiphersuite, Some(Tag::custom(TagKind::MlsCiphersuite, [v])));
+                "ciphersuite-one-digit-more-or-less"
+            }
+            _ => {
+                let real = t2.iter().find(|t| t.kind() == TagKind::MlsProtocolVersion).and_then(|t| t.content().map(|s| s.to_string())).unwrap_or_default();
+                let v = if rng.chance(50) { format!("{real}0") } else { real[..real.len().saturating_sub(1)].to_string() };
+                replace(&mut t2, &|t| t.kind() == TagKind::MlsProtocolVersion, Some(Tag::custom(TagKind::MlsProtocolVersion, [v])));
+                "protocol-version-one-digit-more-or-less"
             }
         };
         let ev = EventBuilder::new(kind, c2).tags(t2).sign_with_keys(&signer).unwrap();
@@ -605,7 +637,7 @@ fn keypackage_and_welcome(prop: &str, i: u64, rng: &mut Rng, out: &mut Outcome, 
         let Ok(res) = with_mdk!(w.clients[a].mdk, x => x.create_group(&apk, vec![kp], conf)) else { continue };
         let valid = res.welcome_rumors[0].clone();
         let mut r = valid.clone();
-        let k = rng.below(10);
+        let k = rng.below(12);
         let label: &str = match k {
             0 => {
                 r.kind = Kind::MlsKeyPackage;
@@ -647,6 +679,13 @@ fn keypackage_and_welcome(prop: &str, i: u64, rng: &mut Rng, out: &mut Outcome, 
                 r.content = format!("{}**", &r.content[..r.content.len() - 2]);
                 "content-not-base64"
             }
+            9 | 10 => {
+                // the reference to the key-package event cut short or prolonged by one byte
+                let real = r.tags.iter().find(|t| t.kind() == TagKind::e()).and_then(|t| t.content().map(|s| s.to_string())).unwrap_or_default();
+                let v = if k == 9 { real[..real.len().saturating_sub(2)].to_string() } else { format!("{real}00") };
+                r.tags = Tags::from_list(r.tags.iter().map(|t| if t.kind() == TagKind::e() { Tag::custom(TagKind::e(), [v.clone()]) } else { t.clone() }).collect());
+                if k == 9 { "e-tag-31-bytes" } else { "e-tag-33-bytes" }
+            }
             _ => "valid",
         };
         r.id = None;
@@ -659,6 +698,14 @@ fn keypackage_and_welcome(prop: &str, i: u64, rng: &mut Rng, out: &mut Outcome, 
         match (label, res2) {
             ("valid", Err(e)) => out.violation(format!("{prop}|valid-welcome-refused|{}", error_variant(&e)), format!("{e}"), json!({})),
             ("valid", Ok(_)) => {}
+            // the library never parses the value of the `e` tag (it only demands a non-empty one): a
+            // malformed reference is not one of the things the property says are refused, and no
+            // library state is derived from it -> information, not a violation (DESIGN 8.2 / 9.3)
+            ("e-tag-31-bytes" | "e-tag-33-bytes", Ok(_)) => {
+                if !out.info.iter().any(|x| x.starts_with("process_welcome accepts a welcome whose `e` tag")) {
+                    out.info.push("process_welcome accepts a welcome whose `e` tag is not a 32-byte event id (the value is not parsed or used by the library)".into());
+                }
+            }
             (_, Ok(_)) => {
                 let pred = if label == "content-trailing-bytes" { "welcome-trailing-bytes-accepted" } else { "other" };
                 out.violation(format!("{prop}|ambiguous-welcome-accepted|{label}|{pred}"), format!("process_welcome accepted a welcome rumor with {label}"), json!({}));
@@ -726,7 +773,7 @@ fn imeta_roundtrip(prop: &str, i: u64, rng: &mut Rng, out: &mut Outcome, dir: &s
         }
         // single-field mutations
         let vals: Vec<String> = tag.as_slice().to_vec();
-        let k = rng.below(10);
+        let k = rng.below(11);
         let mutate = |key: &str, new: Option<String>| -> Vec<String> {
             let mut v = vec![];
             for s in &vals {
@@ -750,7 +797,8 @@ fn imeta_roundtrip(prop: &str, i: u64, rng: &mut Rng, out: &mut Outcome, dir: &s
             6 => ("v-missing", mutate("v", None)),
             7 => ("m-unsupported", mutate("m", Some("application/x-msdownload".into()))),
             8 => ("filename-path-traversal", mutate("filename", Some("../../etc/passwd".into()))),
-            _ => ("n-13-bytes", mutate("n", Some(hex::encode([up.nonce.to_vec(), vec![1]].concat())))),
+            9 => ("n-13-bytes", mutate("n", Some(hex::encode([up.nonce.to_vec(), vec![1]].concat())))),
+            _ => ("x-33-bytes", mutate("x", Some(hex::encode([up.original_hash.to_vec(), vec![1]].concat())))),
         };
         let t2 = Tag::parse(v2).unwrap();
         let r = with_mdk!(w.clients[b].mdk, x => x.media_manager(gid.clone()).parse_imeta_tag(&t2));
